@@ -44,7 +44,15 @@ TTrees == /\ HasRec /\ Rec.ev = "trees" /\ pc = "none"
           /\ guard' => Den(TreesGraph(TreesOfRec, Rec.L, Rec.idoid)) = target'
           /\ pc' = "trees" /\ G' = G /\ Advance
 
+AutNodesFull == [n \in {Rec.nodes[i].id : i \in DOMAIN Rec.nodes} |->
+                   LET r == Rec.nodes[CHOOSE i \in DOMAIN Rec.nodes : Rec.nodes[i].id = n]
+                   IN [ein |-> {r.ein[k] : k \in DOMAIN r.ein}, eout |-> {r.eout[k] : k \in DOMAIN r.eout}]]
+AutEdgesFull == [e \in {Rec.edges[i].eid : i \in DOMAIN Rec.edges} |->
+                   LET r == Rec.edges[CHOOSE i \in DOMAIN Rec.edges : Rec.edges[i].eid = e] IN [src |-> r.src, dst |-> r.dst]]
 TAutop == /\ HasRec /\ Rec.ev = "autop" /\ pc = "none"
+          /\ Rec.aut_consistent = AutConsistent(AutNodesFull, AutEdgesFull, Rec.term)       \* cross-check of AutOp.is_consistent()
+          /\ Rec.aut_consistent
+          /\ Rec.broken_detected                    \* a deliberately broken copy must be reported inconsistent by the code
           /\ L' = Rec.L
           /\ guard' = AutHasPath(AutOfRec, Rec.L)
           /\ target' = AutPoly(AutOfRec, Rec.L)
